@@ -510,7 +510,10 @@ fn batch_events(
 /// listener addresses (see the module documentation).
 fn drive_fault(run: u64, seed: u64, index_base: u64, port: u16, quiet: Duration) -> Run {
     let mut rng = Rng::new(seed.wrapping_mul(1_000_033).wrapping_add(run) ^ 0xFA17);
-    let ad = Addrs::for_index(index_base + run, port);
+    // a busy address would look like a hold the spec knows nothing about: take free ones or skip the run
+    let Some(ad) = wctl::free_addrs_for(index_base + run, port) else {
+        return Run { events: vec![json!({"ev": "reset", "run": run})], requests: 0, responses: 0, probes: 0, exit: "skipped".to_string() };
+    };
     let name = format!("f{}", index_base + run);
     let mut ev: Vec<Value> = vec![json!({"ev": "reset", "run": run})];
     let all_backends: Vec<String> = BACKENDS.iter().map(|s| s.to_string()).collect();
